@@ -866,15 +866,52 @@ func c13Unterminated(c *Ctx) {
 	// end of input and line break exits exist
 	hasEOT := false
 	hasLB := false
+	// the blocks entered when the position has reached the end of the text (`if s.pos >= s.end {`)
+	var eotBlocks []*ssa.BasicBlock
+	for _, b := range f.Blocks {
+		if len(b.Instrs) == 0 {
+			continue
+		}
+		iff, ok := b.Instrs[len(b.Instrs)-1].(*ssa.If)
+		if !ok {
+			continue
+		}
+		bo, ok := iff.Cond.(*ssa.BinOp)
+		if !ok {
+			continue
+		}
+		px, isPX := bo.X.(*ssa.UnOp)
+		py, isPY := bo.Y.(*ssa.UnOp)
+		if !isPX || !isPY {
+			continue
+		}
+		switch {
+		case isScannerField(px.X, "pos") && isScannerField(py.X, "end") && (bo.Op == token.GEQ || bo.Op == token.EQL):
+			eotBlocks = append(eotBlocks, b.Succs[0])
+		case isScannerField(px.X, "pos") && isScannerField(py.X, "end") && bo.Op == token.LSS:
+			eotBlocks = append(eotBlocks, b.Succs[1])
+		case isScannerField(px.X, "end") && isScannerField(py.X, "pos") && (bo.Op == token.LEQ || bo.Op == token.EQL):
+			eotBlocks = append(eotBlocks, b.Succs[0])
+		}
+	}
+	atEOT := func(in ssa.Instruction) bool {
+		for _, t := range eotBlocks {
+			if len(t.Preds) == 1 && (t == in.Block() || t.Dominates(in.Block())) {
+				return true
+			}
+		}
+		return false
+	}
 	instrs(f, func(b *ssa.BasicBlock, i int, in ssa.Instruction) {
-		if c.isScanDiag(in, "M_Unexpected_end_of_text") {
+		// which of the two messages names the end of the text is not the point: a diagnostic is raised there
+		if c.isScanDiag(in, "M_Unexpected_end_of_text") || c.isScanDiag(in, "M_Unterminated_string_literal") && atEOT(in) {
 			hasEOT = true
 		}
-		if c.isScanDiag(in, "M_Unterminated_string_literal") {
+		if c.isScanDiag(in, "M_Unterminated_string_literal") && !atEOT(in) {
 			hasLB = true
 		}
 	})
-	c.R.Check(rule, "end-of-input-diagnostic", pos, hasEOT, "reaching the end of input inside a literal must raise `unexpected end of text`")
+	c.R.Check(rule, "end-of-input-diagnostic", pos, hasEOT, "reaching the end of input inside a literal must raise a diagnostic (`unexpected end of text`, or the unterminated-literal message on the end-of-text exit)")
 	c.R.Check(rule, "line-break-diagnostic", pos, hasLB, "a line break inside a literal must raise `unterminated string literal`")
 	// the unterminated-literal diagnostic is raised exactly on IsLineBreak of the decoded rune: it cannot be reached
 	// within an iteration without the test having held, and once it held only the quote / backslash tests stand
@@ -891,7 +928,9 @@ func c13Unterminated(c *Ctx) {
 		}
 	})
 	if lbTest != nil {
-		isUnterminated := func(in ssa.Instruction) bool { return c.isScanDiag(in, "M_Unterminated_string_literal") }
+		isUnterminated := func(in ssa.Instruction) bool {
+			return c.isScanDiag(in, "M_Unterminated_string_literal") && !atEOT(in)
+		}
 		noBack := func(b *ssa.BasicBlock, k int) bool { return b.Succs[k] != l.Header }
 		// (a) not reachable from the loop header when the true edge of the test is not taken
 		without := pathExistsEq(l.Header, ch, isUnterminated, nil, func(b *ssa.BasicBlock, k int) bool {
